@@ -38,7 +38,7 @@ FNW = 'mc.checks.c19_layered:case_weights'
 # six layers incl. air, bottom -> top; interfaces (m), z positive upwards
 INTERFACES = (-1800.0, -1500.0, -1400.0, -600.0, 0.0)
 COND_H = (1.0, 0.5, 0.01, 0.8, 3.0, 1e-8)
-COND_V = (0.5, 0.3, 0.004, 0.5, 2.5, 1e-8)
+COND_V = (0.5, 0.5, 0.004, 0.5, 2.5, 1e-8)   # layers 0|1 differ in sigma_h only
 MU_R = (1.0, 1.2, 1.0, 1.5, 1.0, 1.0)
 EPS_R = (5.0, 2.0, 10.0, 3.0, 80.0, 1.0)
 ZGRIDS = {       # z-nodes of the 3-D grid (every interface is a node)
@@ -568,14 +568,27 @@ def case_weights(c):
                             origin=(XY0[0], XY0[1], zn[0]))
     shape = tuple(grid.shape_cells)
     mapping = c['mapping']
-    cond = zoo.cell_values(shape, 'rnd', 'x', 0.01, 10.)
-    kw = {'property_x': zoo.to_mapping(cond, mapping)}
+    lin = {'property_x': zoo.cell_values(shape, 'rnd', 'x', 0.01, 10.)}
     if c['case'] == 'VTI':
-        kw['property_z'] = zoo.to_mapping(
-            zoo.cell_values(shape, 'rnd', 'z', 0.01, 10.), mapping)
+        lin['property_z'] = zoo.cell_values(shape, 'rnd', 'z', 0.01, 10.)
     if c['perm']:
-        kw['mu_r'] = zoo.cell_values(shape, 'rnd', 'm', 0.5, 3.0)
-        kw['epsilon_r'] = zoo.cell_values(shape, 'rnd', 'e', 1., 80.)
+        lin['mu_r'] = zoo.cell_values(shape, 'rnd', 'm', 0.5, 3.0)
+        lin['epsilon_r'] = zoo.cell_values(shape, 'rnd', 'e', 1., 80.)
+    if c.get('zgroups'):
+        # z-structure: every property is (lateral pattern) x (factor per
+        # z-cell), the factors constant over groups of adjacent z-cells that
+        # differ from property to property (the last property constant in
+        # z), so that merge=True meets interfaces at which only ONE property
+        # changes
+        k = np.arange(shape[2])
+        pats = [k//2, (k + 1)//2, k//3]
+        names = list(lin)
+        for j, name in enumerate(names):
+            g = 0*k if (j == len(names) - 1 and j > 0) else pats[j % 3]
+            fac = (1.0 + 0.37*g)**(-1 if name == 'property_z' else 1)
+            lin[name] = lin[name][:, :, :1]*fac[None, None, :]
+    kw = {n: (zoo.to_mapping(v, mapping) if n.startswith('prop') else v)
+          for n, v in lin.items()}
     model = emg3d.Model(grid, mapping=mapping, **kw)
     xc, yc = grid.cell_centers_x, grid.cell_centers_y
     area = np.outer(grid.h[0], grid.h[1])
@@ -728,6 +741,8 @@ def weight_cases(thorough):
         out.append({'w': w, 'nxy': nxy, 'z': 'split' if perm else 'one',
                     'mapping': mapping, 'case': case_, 'perm': perm,
                     'points': pts})
+        if thorough or pts in (0, 3):
+            out.append(dict(out[-1], z='split', zgroups=True))
     return out
 
 
@@ -758,7 +773,7 @@ def run(ctx):
         "extract_1d: cells whose centre lies on the ellipse to 1e-9 are "
         "accepted either way")
     quick = ctx.quick
-    cap = ctx.budget or (100 if quick else 1100)
+    cap = ctx.budget or (400 if quick else 2200)
     if ctx.wants('forward'):
         cs = lattice_cases(2 if quick else 3, 'forward',
                            () if quick else MAPPINGS_T)
